@@ -34,7 +34,8 @@
     (+= _gensym_counter 1)
     (setv n _gensym_counter)
     (finally (.release _gensym_lock)))
-  (setv g (hy.mangle (.format "_hy_gensym_{}_{}" g n)))
+  ; A dot in `g` would make the result a dotted identifier, not a symbol.
+  (setv g (hy.mangle (.format "_hy_gensym_{}_{}" (.replace (str g) "." "_") n)))
   (hy.models.Symbol (if (.startswith g "_hyx_")
     ; Remove the mangle prefix, if it's there, so the result always
     ; starts with our reserved prefix `_hy_`.
